@@ -346,6 +346,52 @@ def r08_header(ctx):
     ctx.require(ok, 'R08.4', 'write_chunk', ctx.where(wc), f'write_chunk writes {wr_!r}', construct=f'{wc.qname}::layout')
 
 
+def r08_division(ctx):
+    """Reader, writer and constructor agree on the division field of the header: every value a conformant file may carry -
+    ticks per quarter note 1..32767 and the SMPTE forms with bit 15 set (-25 frames x 40 = E7 28, -30 x 80 = E2 50, which the
+    library holds as a negative ticks_per_beat) - loads to exactly that value, and a file object holding it saves to it."""
+    ai = smf.make_interp(ctx)
+    cls = ctx.p.cls(smf.MF, 'MidiFile')
+    o, load = ctx.p.lookup_method(cls, '_load')
+    o, save = ctx.p.lookup_method(cls, 'save')
+    if load is None or save is None:
+        raise AnalysisError('MidiFile._load / save not found')
+    ctx.fn(load)
+    from ..fold import ClassRef
+    n = 0
+    trk = [VLQ(0), 0xff, 0x2f, VLQ(0)]
+    for div, label in ((1, '1'), (96, '96'), (480, '480'), (32767, '32767'), (-6360, 'E7 28 (25 frames, 40 ticks)'), (-7600, 'E2 50 (30 frames, 80 ticks)'),
+                       (-6144, 'E8 00 (24 frames, 0 ticks)')):
+        for debug in (False,):
+            n += 1
+            stream = [Field('4s', b'MThd'), Field('L', 6), Field('h', 1), Field('h', 1), Field('h', div), Field('4s', b'MTrk'), Field('L', wire.size_of(trk))] + trk
+            outs = ai.explore(lambda: ai.apply(ClassRef(cls), [], {'file': AFile(stream=list(stream), name='in'), 'debug': debug}, None))
+            ok = len(outs) == 1 and outs[0].kind == 'return' and isinstance(outs[0].value, AObj) and outs[0].value.attrs.get('ticks_per_beat') == div \
+                and isinstance(outs[0].value.attrs.get('tracks'), AList) and len(outs[0].value.attrs['tracks'].items) == 1
+            ctx.require(ok, 'R08.4', f'load(division {label}{", debug" if debug else ""})', ctx.where(load),
+                        f'a conformant file whose header says division {label} loads as {str(outs)[:240]}; expected ticks_per_beat == {div} and one track',
+                        construct=f'{load.qname}::division')
+        n += 1
+        holder = {}
+
+        def thunk_s():
+            mf = ai.apply(ClassRef(cls), [], {'type': 1, 'ticks_per_beat': div}, None)
+            ai.call_function(ctx.p.lookup_method(cls, 'add_track')[1], [mf], {})
+            out = AFile(name='out')
+            holder['out'] = out
+            ai.call_function(save, [mf], {'file': out})
+            return out
+        outs = ai.explore(thunk_s)
+        wr_ = holder['out'].written if 'out' in holder else []
+        hdr = [x for x in wr_ if isinstance(x, Field) and x.code == 'h']
+        ok = len(outs) == 1 and outs[0].kind == 'return' and len(hdr) == 3 and hdr[2].value == div
+        ctx.require(ok, 'R08.4', f'save(division {label})', ctx.where(save), f'MidiFile(ticks_per_beat={div}).save() gives {str(outs)[:200]} and header fields '
+                    f'{[h.value for h in hdr]}', construct=f'{save.qname}::division')
+    ctx.floor('R08.4-division', n, 14)
+    for q in ai.inlined:
+        ctx.functions.add(q)
+
+
 def r08_debug(ctx):
     """The debug wrapper is a transparent observer: its read()/tell() hand through exactly what the wrapped file gives (one
     read of the requested size, nothing consumed besides), and loading whole files with debug=True gives the same tracks -
@@ -460,4 +506,4 @@ def r08_charset(ctx):
     ctx.borrow(c17.r17_scoping, 'R08.8')
 
 
-RULES = [('R08.8', r08_charset), ('R08.7', r08_codec), ('R08-alien', r08_alien_chunks), ('R08-induction', r08_induction), ('R08.2', r08_writer), ('R08.3', r08_reader), ('R08.5', r08_clip), ('R08.1', r08_vlq), ('R08.4', r08_header), ('R08.6', r08_debug)]
+RULES = [('R08.4-division', r08_division), ('R08.8', r08_charset), ('R08.7', r08_codec), ('R08-alien', r08_alien_chunks), ('R08-induction', r08_induction), ('R08.2', r08_writer), ('R08.3', r08_reader), ('R08.5', r08_clip), ('R08.1', r08_vlq), ('R08.4', r08_header), ('R08.6', r08_debug)]
